@@ -138,7 +138,16 @@ class GeluPlugin(PrimitiveLeafPlugin):
         ) -> Callable[..., ArrayLike]:
             if orig is None:
                 raise RuntimeError("Original jax.nn.gelu not found")
-            return lambda *args, **kwargs: cls._PRIM.bind(*args, **kwargs)
+
+            def _bind(x: ArrayLike, *args: object, **kwargs: object) -> ArrayLike:
+                # jax.nn.gelu(x, approximate): the parameter may be given positionally
+                if args:
+                    if len(args) > 1 or "approximate" in kwargs:
+                        raise TypeError("gelu() got too many or duplicate arguments")
+                    kwargs = dict(kwargs, approximate=args[0])
+                return cls._PRIM.bind(x, **kwargs)
+
+            return _bind
 
         return [
             AssignSpec("jax.nn", "gelu_p", cls._PRIM, delete_if_missing=True),
